@@ -2,7 +2,648 @@
 
 package abcicli
 
-import "testing"
+// ABCI harness, part 2:
+//   conc  : the real socketClient against the real abci/server.SocketServer with a scripted
+//           application, behind a byte forwarder that re-chunks both directions; seeded
+//           concurrent callers; real flush timer; optional faults (application panic, server
+//           stop, link cut).  Events only, judged by spec/trace/TMAbciTrace.tla.
+//   local : four localClients sharing one mutex (as proxy.NewLocalClientCreator makes them)
+//           over a scripted application whose handlers block at gates; step-controlled by
+//           schedules from spec/TMAbciLocal.tla.
 
-func abciConcAll(t *testing.T, out, dir string, seed int64, cfg abciM) {}
-func abciLocalAll(t *testing.T, out string, seed int64, cfg abciM)     {}
+import (
+	"fmt"
+	"math/rand"
+	"net"
+	"os"
+	"path/filepath"
+	"runtime"
+	"strconv"
+	"strings"
+	"sync"
+	"testing"
+	"time"
+
+	"github.com/tendermint/tendermint/abci/server"
+	"github.com/tendermint/tendermint/abci/types"
+	tmsync "github.com/tendermint/tendermint/libs/sync"
+)
+
+func abciCut(s string) string {
+	if i := strings.IndexByte(s, '|'); i >= 0 {
+		return s[:i]
+	}
+	return s
+}
+
+// ---------------------------------------------------------------------------- scripted application
+
+type abciApp struct {
+	types.BaseApplication
+	tr       *abciTrace
+	mu       sync.Mutex
+	rng      *rand.Rand
+	panicAt  string                   // label at which the handler panics
+	gates    map[string]chan struct{} // label -> handler blocks until closed
+	inGate   []string
+	jitter   bool
+	panicked bool
+}
+
+func (a *abciApp) enter(m, typ, lab string) {
+	a.tr.ev("SrvGot", abciM{"r": lab, "rt": typ})
+	a.tr.ev("AppS", abciM{"conn": lab, "m": m})
+	a.mu.Lock()
+	p := a.panicAt == lab && lab != ""
+	ch := a.gates[lab]
+	j := 0
+	if a.jitter {
+		j = a.rng.Intn(4)
+	}
+	if ch != nil {
+		a.inGate = append(a.inGate, lab)
+	}
+	a.mu.Unlock()
+	if p {
+		a.mu.Lock()
+		a.panicked = true
+		a.mu.Unlock()
+		a.tr.ev("Fault", abciM{"f": "panic", "r": lab, "xt": "-"})
+		panic("scripted application panic at " + lab)
+	}
+	if ch != nil {
+		<-ch
+		a.mu.Lock()
+		for i, x := range a.inGate {
+			if x == lab {
+				a.inGate = append(a.inGate[:i:i], a.inGate[i+1:]...)
+				break
+			}
+		}
+		a.mu.Unlock()
+	}
+	switch j {
+	case 1:
+		runtime.Gosched()
+	case 2:
+		time.Sleep(time.Duration(50) * time.Microsecond)
+	}
+}
+
+func (a *abciApp) leave(m, lab string) { a.tr.ev("AppE", abciM{"conn": lab, "m": m}) }
+
+func (a *abciApp) CheckTx(req types.RequestCheckTx) types.ResponseCheckTx {
+	lab := abciCut(string(req.Tx))
+	a.enter("CheckTx", "B", lab)
+	defer a.leave("CheckTx", lab)
+	return types.ResponseCheckTx{Code: types.CodeTypeOK, Data: req.Tx}
+}
+
+func (a *abciApp) DeliverTx(req types.RequestDeliverTx) types.ResponseDeliverTx {
+	lab := abciCut(string(req.Tx))
+	a.enter("DeliverTx", "D", lab)
+	defer a.leave("DeliverTx", lab)
+	return types.ResponseDeliverTx{Code: types.CodeTypeOK, Data: req.Tx}
+}
+
+func (a *abciApp) Query(req types.RequestQuery) types.ResponseQuery {
+	lab := abciCut(string(req.Data))
+	a.enter("Query", "Q", lab)
+	defer a.leave("Query", lab)
+	return types.ResponseQuery{Code: types.CodeTypeOK, Value: req.Data}
+}
+
+func (a *abciApp) Info(req types.RequestInfo) types.ResponseInfo {
+	lab := abciCut(req.Version)
+	a.enter("Info", "I", lab)
+	defer a.leave("Info", lab)
+	return types.ResponseInfo{Data: req.Version}
+}
+
+// ---------------------------------------------------------------------------- byte forwarder
+
+type abciFwd struct {
+	ln   net.Listener
+	up   string
+	rng  *rand.Rand
+	mu   sync.Mutex
+	cs   []net.Conn
+	dead bool
+}
+
+func (f *abciFwd) pump(dst, src net.Conn, seed int64) {
+	rng := rand.New(rand.NewSource(seed))
+	buf := make([]byte, 8192)
+	for {
+		n, err := src.Read(buf)
+		for off := 0; off < n; {
+			k := 1 + rng.Intn(97)
+			if rng.Intn(4) == 0 {
+				k = 1 + rng.Intn(3000)
+			}
+			if off+k > n {
+				k = n - off
+			}
+			if _, werr := dst.Write(buf[off : off+k]); werr != nil {
+				src.Close()
+				dst.Close()
+				return
+			}
+			off += k
+			if rng.Intn(8) == 0 {
+				runtime.Gosched()
+			}
+		}
+		if err != nil {
+			src.Close()
+			dst.Close()
+			return
+		}
+	}
+}
+
+func (f *abciFwd) serve(seed int64) {
+	for {
+		c, err := f.ln.Accept()
+		if err != nil {
+			return
+		}
+		u, err := net.Dial("unix", f.up)
+		if err != nil {
+			c.Close()
+			continue
+		}
+		f.mu.Lock()
+		f.cs = append(f.cs, c, u)
+		f.mu.Unlock()
+		go f.pump(u, c, seed*2+1)
+		go f.pump(c, u, seed*2+2)
+	}
+}
+
+func (f *abciFwd) cut() {
+	f.mu.Lock()
+	defer f.mu.Unlock()
+	for _, c := range f.cs {
+		c.Close()
+	}
+}
+
+// ---------------------------------------------------------------------------- concurrent runs
+
+func abciNum(m abciM, k string, d int) int {
+	if v, ok := m[k].(float64); ok {
+		return int(v)
+	}
+	return d
+}
+
+func abciConcAll(t *testing.T, out, dir string, seed int64, cfg abciM) {
+	runs := abciNum(cfg, "runs", 10)
+	tr := abciNewTrace(filepath.Join(out, "conc.ndjson"))
+	defer tr.close()
+	for i := 0; i < runs; i++ {
+		abciConcRun(tr, dir, seed*1000+int64(i), i, cfg)
+	}
+	tr.ev("End", abciM{})
+}
+
+func abciConcRun(tr *abciTrace, dir string, seed int64, idx int, cfg abciM) {
+	rng := rand.New(rand.NewSource(seed))
+	nthreads := 2 + rng.Intn(3)
+	ncalls := abciNum(cfg, "calls", 12)
+	fault := "none"
+	if idx%3 == 1 {
+		fault = []string{"panic", "srvstop", "cut"}[rng.Intn(3)]
+	}
+	sp := filepath.Join(dir, fmt.Sprintf("c%d-srv.sock", idx))
+	fp := filepath.Join(dir, fmt.Sprintf("c%d-fwd.sock", idx))
+	os.Remove(sp)
+	os.Remove(fp)
+	tr.ev("Reset", abciM{"run": fmt.Sprintf("conc-%d", seed), "family": "conc", "qcap": reqQueueSize, "fault": fault, "threads": nthreads})
+	app := &abciApp{tr: tr, rng: rand.New(rand.NewSource(seed + 7)), gates: map[string]chan struct{}{}, jitter: true}
+	total := nthreads * ncalls
+	faultAt := 1 + rng.Intn(total)
+	if fault == "panic" {
+		app.panicAt = "c" + strconv.Itoa(faultAt)
+	}
+	srv := server.NewSocketServer("unix://"+sp, app)
+	if err := srv.Start(); err != nil {
+		panic(err)
+	}
+	ln, err := net.Listen("unix", fp)
+	if err != nil {
+		panic(err)
+	}
+	fwd := &abciFwd{ln: ln, up: sp}
+	go fwd.serve(seed)
+	cli := NewSocketClient("unix://"+fp, true).(*socketClient)
+	s := &abciSock{tr: tr, cli: cli, gates: map[string]chan struct{}{}, calls: map[int]*abciCall{},
+		inSetCb: map[int64]bool{}, selfGid: abciGid()}
+	cli.SetResponseCallback(s.globalCb)
+	if err := cli.Start(); err != nil {
+		panic(err)
+	}
+	var ctr int64
+	var cmu sync.Mutex
+	next := func() int {
+		cmu.Lock()
+		defer cmu.Unlock()
+		ctr++
+		return int(ctr)
+	}
+	var wg sync.WaitGroup
+	for th := 0; th < nthreads; th++ {
+		wg.Add(1)
+		trng := rand.New(rand.NewSource(seed*31 + int64(th)))
+		go func(tn string, rng *rand.Rand) {
+			defer wg.Done()
+			for k := 0; k < ncalls; k++ {
+				c := next()
+				if fault != "none" && fault != "panic" && c == faultAt {
+					tr.ev("Fault", abciM{"f": "close", "r": "-", "xt": "-", "how": fault})
+					s.mu.Lock()
+					s.faulted = true
+					s.mu.Unlock()
+					if fault == "srvstop" {
+						srv.Stop()
+					} else {
+						fwd.cut()
+					}
+				}
+				kinds := []string{"AsyncB", "AsyncB", "AsyncD", "SyncB", "SyncQ", "SyncD", "FlushSync", "FlushAsync", "SyncI"}
+				kind := kinds[rng.Intn(len(kinds))]
+				lab := "c" + strconv.Itoa(c)
+				pad := ""
+				switch rng.Intn(6) {
+				case 0:
+					pad = "|" + strings.Repeat("x", 1+rng.Intn(300))
+				case 1:
+					pad = "|" + strings.Repeat("y", 3000+rng.Intn(6000))
+				}
+				ci := &abciCall{call: c, t: tn, kind: kind, label: lab, done: make(chan struct{}), gid: abciGid()}
+				if kind == "FlushSync" || kind == "FlushAsync" {
+					ci.label = "F"
+				}
+				s.mu.Lock()
+				s.calls[c] = ci
+				s.mu.Unlock()
+				s.abciDoCallX(ci, pad, rng)
+				if rng.Intn(5) == 0 {
+					time.Sleep(time.Duration(rng.Intn(25)) * time.Millisecond)
+				}
+			}
+		}("t"+strconv.Itoa(th+1), trng)
+	}
+	fin := make(chan struct{})
+	go func() { wg.Wait(); close(fin) }()
+	// no timing verdicts: wait until the callers are done or everything is blocked for good
+	idle := 0
+	finished := false
+	for !finished && idle < 100 {
+		select {
+		case <-fin:
+			finished = true
+		case <-time.After(200 * time.Millisecond):
+			if s.quiescent() && s.quiescent() {
+				idle++
+				select { // blocked: can anything still release the callers?
+				case <-cli.Quit():
+					if !s.routineAlive("(*socketClient).sendRequestsRoutine") && !s.routineAlive("(*socketClient).recvResponseRoutine") {
+						idle = 1000
+					}
+				default:
+				}
+			} else {
+				idle = 0
+			}
+		}
+	}
+	// the timer may still fire a flush; let the client drain before the projection
+	time.Sleep(30 * time.Millisecond)
+	settled := s.settle()
+	app.mu.Lock()
+	panicked := app.panicked
+	app.mu.Unlock()
+	s.mu.Lock()
+	faulted := s.faulted || panicked
+	s.mu.Unlock()
+	if faulted { // the client has to notice the broken link by itself: wait for that, never judge on time
+		dl := time.Now().Add(60 * time.Second)
+		for cli.IsRunning() && time.Now().Before(dl) {
+			time.Sleep(time.Millisecond)
+		}
+		settled = s.settle() && !cli.IsRunning()
+	}
+	s.obs(settled, true)
+	tr.ev("Cleanup", abciM{})
+	fwd.cut()
+	ln.Close()
+	if cli.IsRunning() {
+		cli.Stop()
+	}
+	srv.Stop()
+	s.settle()
+}
+
+func (s *abciSock) abciDoCallX(ci *abciCall, pad string, rng *rand.Rand) {
+	cli := s.cli
+	defer close(ci.done)
+	payload := ci.label + pad
+	s.tr.ev("Call", abciM{"call": ci.call, "t": ci.t, "kind": ci.kind, "r": ci.label})
+	errs, got := "nil", "-"
+	setcb := func(h *ReqRes) {
+		ci.handle = h
+		if rng.Intn(3) == 0 {
+			return
+		}
+		if rng.Intn(2) == 0 {
+			time.Sleep(time.Duration(rng.Intn(300)) * time.Microsecond)
+		}
+		gid := abciGid()
+		s.mu.Lock()
+		s.inSetCb[gid] = true
+		s.mu.Unlock()
+		s.tr.ev("SetCbS", abciM{"r": ci.label})
+		h.SetCallback(s.reqCb(ci.label))
+		s.tr.ev("SetCbE", abciM{"r": ci.label})
+		s.mu.Lock()
+		delete(s.inSetCb, gid)
+		s.mu.Unlock()
+	}
+	switch ci.kind {
+	case "AsyncB":
+		h := cli.CheckTxAsync(types.RequestCheckTx{Tx: []byte(payload)})
+		s.tr.ev("Ret", abciM{"call": ci.call, "t": ci.t, "kind": ci.kind, "r": ci.label, "err": "nil", "got": "-"})
+		setcb(h)
+		return
+	case "AsyncD":
+		h := cli.DeliverTxAsync(types.RequestDeliverTx{Tx: []byte(payload)})
+		s.tr.ev("Ret", abciM{"call": ci.call, "t": ci.t, "kind": ci.kind, "r": ci.label, "err": "nil", "got": "-"})
+		setcb(h)
+		return
+	case "FlushAsync":
+		ci.handle = cli.FlushAsync()
+	case "SyncB":
+		res, err := cli.CheckTxSync(types.RequestCheckTx{Tx: []byte(payload)})
+		errs, got = abciErrStr(err), "nil"
+		if res != nil {
+			got = abciCut(string(res.Data))
+		}
+	case "SyncD":
+		res, err := cli.DeliverTxSync(types.RequestDeliverTx{Tx: []byte(payload)})
+		errs, got = abciErrStr(err), "nil"
+		if res != nil {
+			got = abciCut(string(res.Data))
+		}
+	case "SyncQ":
+		res, err := cli.QuerySync(types.RequestQuery{Data: []byte(payload)})
+		errs, got = abciErrStr(err), "nil"
+		if res != nil {
+			got = abciCut(string(res.Value))
+		}
+	case "SyncI":
+		res, err := cli.InfoSync(types.RequestInfo{Version: payload})
+		errs, got = abciErrStr(err), "nil"
+		if res != nil {
+			got = abciCut(res.Data)
+		}
+	case "FlushSync":
+		errs = abciErrStr(cli.FlushSync())
+	}
+	s.tr.ev("Ret", abciM{"call": ci.call, "t": ci.t, "kind": ci.kind, "r": ci.label, "err": errs, "got": got})
+}
+
+// ---------------------------------------------------------------------------- local client
+
+type abciLocal struct {
+	tr    *abciTrace
+	app   *abciApp
+	clis  map[string]Client
+	mu    sync.Mutex
+	calls map[int]*abciCall
+	self  int64
+	ncbS  int
+	ncbE  int
+}
+
+func (lc *abciLocal) quiescent() bool {
+	for _, g := range abciGoroutines() {
+		if g.id == lc.self || !abciRelevant(g) {
+			continue
+		}
+		if !abciBlockedState(g.state) {
+			return false
+		}
+	}
+	return true
+}
+
+func (lc *abciLocal) settle() bool {
+	deadline := time.Now().Add(20 * time.Second)
+	ok := 0
+	for time.Now().Before(deadline) {
+		if lc.quiescent() {
+			ok++
+			if ok >= 3 {
+				return true
+			}
+			time.Sleep(100 * time.Microsecond)
+			continue
+		}
+		ok = 0
+		time.Sleep(100 * time.Microsecond)
+	}
+	return false
+}
+
+func (lc *abciLocal) obs(settled, final bool) {
+	gs := abciGoroutines()
+	lc.mu.Lock()
+	busy := []string{}
+	infl := []interface{}{}
+	for c := 1; c <= len(lc.calls); c++ {
+		ci := lc.calls[c]
+		select {
+		case <-ci.done:
+		default:
+			busy = append(busy, ci.t)
+			st, where := "gone", "-"
+			for _, g := range gs {
+				if g.id == ci.gid {
+					st = g.state
+					switch {
+					case strings.Contains(g.text, "(*abciApp).enter"):
+						where = "app"
+					case strings.Contains(g.text, "(*Mutex).Lock"):
+						where = "Lock"
+					}
+				}
+			}
+			infl = append(infl, abciM{"call": ci.call, "t": ci.t, "state": st, "where": where})
+		}
+	}
+	nS, nE := lc.ncbS, lc.ncbE
+	lc.mu.Unlock()
+	lc.app.mu.Lock()
+	inapp := append([]string{}, lc.app.inGate...)
+	lc.app.mu.Unlock()
+	lc.tr.ev("LObs", abciM{"settled": settled, "final": final, "busy": busy, "inflight": infl, "inapp": inapp, "ncbS": nS, "ncbE": nE})
+}
+
+func (lc *abciLocal) globalCb(conn string) Callback {
+	return func(req *types.Request, res *types.Response) {
+		lab := abciCut(abciReqLabel(req))
+		lc.mu.Lock()
+		lc.ncbS++
+		lc.mu.Unlock()
+		lc.tr.ev("CbS", abciM{"k": "g", "r": lab, "x": abciCut(abciResLabel(res)), "rt": abciReqTyp(req), "xt": abciResTyp(res), "by": "caller", "conn": conn})
+		lc.mu.Lock()
+		lc.ncbE++
+		lc.mu.Unlock()
+		lc.tr.ev("CbE", abciM{"k": "g", "r": lab, "by": "caller"})
+	}
+}
+
+func (lc *abciLocal) doCall(ci *abciCall, conn string) {
+	defer close(ci.done)
+	cli := lc.clis[conn]
+	lab := ci.label
+	lc.tr.ev("Call", abciM{"call": ci.call, "t": ci.t, "kind": ci.kind, "r": lab, "conn": conn})
+	errs, got := "nil", "-"
+	switch ci.kind {
+	case "AsyncB":
+		ci.handle = cli.CheckTxAsync(types.RequestCheckTx{Tx: []byte(lab)})
+	case "AsyncD":
+		ci.handle = cli.DeliverTxAsync(types.RequestDeliverTx{Tx: []byte(lab)})
+	case "SyncB":
+		res, err := cli.CheckTxSync(types.RequestCheckTx{Tx: []byte(lab)})
+		errs, got = abciErrStr(err), "nil"
+		if res != nil {
+			got = string(res.Data)
+		}
+	case "SyncD":
+		res, err := cli.DeliverTxSync(types.RequestDeliverTx{Tx: []byte(lab)})
+		errs, got = abciErrStr(err), "nil"
+		if res != nil {
+			got = string(res.Data)
+		}
+	case "SyncQ":
+		res, err := cli.QuerySync(types.RequestQuery{Data: []byte(lab)})
+		errs, got = abciErrStr(err), "nil"
+		if res != nil {
+			got = string(res.Value)
+		}
+	case "SyncI":
+		res, err := cli.InfoSync(types.RequestInfo{Version: lab})
+		errs, got = abciErrStr(err), "nil"
+		if res != nil {
+			got = res.Data
+		}
+	case "FlushSync":
+		errs = abciErrStr(cli.FlushSync())
+	case "FlushAsync":
+		ci.handle = cli.FlushAsync()
+	case "SyncA":
+		res, err := cli.EchoSync(lab)
+		errs, got = abciErrStr(err), "nil"
+		if res != nil {
+			got = res.Message
+		}
+	}
+	lc.tr.ev("Ret", abciM{"call": ci.call, "t": ci.t, "kind": ci.kind, "r": lab, "err": errs, "got": got})
+}
+
+func abciLocalRun(tr *abciTrace, run abciRun) {
+	tr.ev("Reset", abciM{"run": run.ID, "family": "local", "qcap": 0})
+	tr.ev("Mode", abciM{"mutex": "shared"})
+	app := &abciApp{tr: tr, rng: rand.New(rand.NewSource(1)), gates: map[string]chan struct{}{}}
+	mtx := new(tmsync.Mutex)
+	lc := &abciLocal{tr: tr, app: app, clis: map[string]Client{}, calls: map[int]*abciCall{}, self: abciGid()}
+	for _, conn := range []string{"consensus", "mempool", "query", "snapshot"} {
+		c := NewLocalClient(mtx, app) // what proxy.localClientCreator.NewABCIClient does
+		c.SetResponseCallback(lc.globalCb(conn))
+		if err := c.Start(); err != nil {
+			panic(err)
+		}
+		lc.clis[conn] = c
+	}
+	lc.obs(lc.settle(), false)
+	for _, st := range run.Steps {
+		tr.ev("Env", abciM{"a": map[string]interface{}(st)})
+		switch st.str("name") {
+		case "StartCall":
+			call := st.num("call")
+			kind := st.str("kind")
+			lab := "c" + strconv.Itoa(call)
+			if kind == "FlushSync" || kind == "FlushAsync" {
+				lab = "F"
+			}
+			ci := &abciCall{call: call, t: st.str("conn"), kind: kind, label: lab, done: make(chan struct{})}
+			if st.flag("gate") {
+				app.mu.Lock()
+				app.gates[lab] = make(chan struct{})
+				app.mu.Unlock()
+			}
+			lc.mu.Lock()
+			lc.calls[call] = ci
+			lc.mu.Unlock()
+			ready := make(chan struct{})
+			go func() {
+				ci.gid = abciGid()
+				close(ready)
+				lc.doCall(ci, st.str("conn"))
+			}()
+			<-ready
+		case "ReleaseApp":
+			app.mu.Lock()
+			var ch chan struct{}
+			lab := ""
+			if len(app.inGate) > 0 {
+				lab = app.inGate[0]
+				ch = app.gates[lab]
+				delete(app.gates, lab)
+			}
+			app.mu.Unlock()
+			if ch == nil {
+				tr.ev("Skip", abciM{"step": "ReleaseApp", "why": "nobody in the application"})
+			} else {
+				tr.ev("ReleaseApp", abciM{"r": lab})
+				close(ch)
+			}
+		default:
+			tr.ev("Skip", abciM{"step": st.str("name"), "why": "unknown step"})
+		}
+		lc.obs(lc.settle(), false)
+	}
+	lc.obs(lc.settle(), true)
+	tr.ev("Cleanup", abciM{})
+	app.mu.Lock()
+	for _, ch := range app.gates {
+		close(ch)
+	}
+	app.gates = map[string]chan struct{}{}
+	app.mu.Unlock()
+	lc.settle()
+}
+
+type abciLocalIn struct {
+	Runs []abciRun `json:"runs"`
+}
+
+func abciLocalAll(t *testing.T, out string, seed int64, cfg abciM) {
+	tr := abciNewTrace(filepath.Join(out, "local.ndjson"))
+	defer tr.close()
+	rs, _ := cfg["runs"].([]interface{})
+	for _, r := range rs {
+		m, _ := r.(map[string]interface{})
+		run := abciRun{ID: fmt.Sprint(m["id"])}
+		sts, _ := m["steps"].([]interface{})
+		for _, x := range sts {
+			sm, _ := x.(map[string]interface{})
+			run.Steps = append(run.Steps, abciStep(sm))
+		}
+		abciLocalRun(tr, run)
+	}
+	tr.ev("End", abciM{})
+}
